@@ -7,6 +7,7 @@ CONSTANTS
   ConsumerSet = {"c1", "c2", "c3"}
   Coords = {"A", "X"}
   OpKinds = {"CreateStream", "DeleteStream", "Pause", "Resume", "SetReadonly", "ShrinkISR", "ExpandISR", "ChangeLeader", "PublishActivity", "CreateGroup", "JoinGroup", "LeaveGroup", "ChangeCoordinator"}
+  Variants = {"plain", "custom"}
   MaxOps = 10
   MaxSnaps = 2
   MaxRestarts = 2
